@@ -126,6 +126,11 @@ func extractSinglePart(re *syntax.Regexp) *charClassPart {
 		if len(re.Sub) != 1 {
 			return nil
 		}
+		if re.Max == 0 {
+			// cc{0} matches only the empty string; a maxMatch of 0 would be
+			// read as "unlimited" by the searcher
+			return nil
+		}
 		charClass = re.Sub[0]
 		minMatch = re.Min
 		maxMatch = re.Max
@@ -294,7 +299,7 @@ func isValidCompositePart(re *syntax.Regexp) bool {
 		if len(re.Sub) != 1 {
 			return false
 		}
-		if re.Flags&syntax.NonGreedy != 0 {
+		if re.Flags&syntax.NonGreedy != 0 || re.Max == 0 {
 			return false
 		}
 		return re.Sub[0].Op == syntax.OpCharClass
